@@ -76,7 +76,7 @@ def add_debug_ops(rng, text):
             first_code = i + 1
     for _ in range(rng.choice([1, 2, 4])):
         k = rng.randrange(first_code, len(lines) + 1)
-        lines.insert(k, rng.choice(['print_reg(R1)', 'print("x")', 'println("y z")']))
+        lines.insert(k, rng.choice(['print_reg(R1)', 'print("x")', 'println("y z")', '__eval("1")', '__eval("vm")']))
     return "\n".join(lines) + "\n"
 
 
